@@ -519,6 +519,22 @@ type Contract struct {
 	AllocBound []*Clause
 	// interface contract?
 	IsIface bool
+	// ParamNames: explicit parameter names (function-type contracts)
+	ParamNames []string
+	// Implements: key of a function-type contract this closure implements
+	Implements string
+	// CbInv: callback invariants over the closure's captured variables
+	CbInv []*Clause
+	// GhostSet: ghost updates performed as part of a call ("g = expr")
+	GhostSet []GhostAssign
+	// GhostInit: ghost prologue of the unit
+	GhostInit []GhostAssign
+}
+
+type GhostAssign struct {
+	Name string
+	Src  string
+	E    Expr
 }
 
 type SiteClause struct {
@@ -657,11 +673,18 @@ func (cs *ContractSet) loadFile(path string) error {
 			if err := finishPred(i); err != nil {
 				return err
 			}
+			var pnames []string
+			if lp := strings.Index(rest, "("); lp > 0 && strings.HasSuffix(rest, ")") && !strings.HasPrefix(rest, "(") {
+				for _, pn := range strings.Split(rest[lp+1:len(rest)-1], ",") {
+					pnames = append(pnames, strings.TrimSpace(pn))
+				}
+				rest = strings.TrimSpace(rest[:lp])
+			}
 			key := pkg + "." + rest
 			if _, dup := cs.Funcs[key]; dup {
 				return fail(i, "duplicate contract for %s", key)
 			}
-			cur = &Contract{Key: key, Pkg: pkg, Invs: map[int][]*Clause{}, Decr: map[int]*Clause{}, Unroll: map[int]int{}, File: path, Line: i + 1, Extra: map[string][]string{}, IsIface: kw == "interface"}
+			cur = &Contract{Key: key, Pkg: pkg, Invs: map[int][]*Clause{}, Decr: map[int]*Clause{}, Unroll: map[int]int{}, File: path, Line: i + 1, Extra: map[string][]string{}, IsIface: kw == "interface", ParamNames: pnames}
 			cs.Funcs[key] = cur
 			curLemma = nil
 			continue
@@ -840,6 +863,33 @@ func (cs *ContractSet) loadFile(path string) error {
 				}
 				cur.Assigns = append(cur.Assigns, AssignTarget{Src: part, E: e})
 			}
+		case "implements":
+			cur.Implements = rest
+		case "cbinv":
+			if err := finishClause(i); err != nil {
+				return err
+			}
+			c := &Clause{Kind: "cbinv", Labels: labels, Src: rest, Line: i + 1, File: path}
+			cur.CbInv = append(cur.CbInv, c)
+			lastClause = c
+		case "ghostset", "ghostinit":
+			if err := finishClause(i); err != nil {
+				return err
+			}
+			eq := strings.Index(rest, "=")
+			if eq < 0 {
+				return fail(i, "malformed %s", kw)
+			}
+			ge, err := ParseExpr(strings.TrimSpace(rest[eq+1:]))
+			if err != nil {
+				return fail(i, "%v", err)
+			}
+			ga := GhostAssign{Name: strings.TrimSpace(rest[:eq]), Src: rest, E: ge}
+			if kw == "ghostset" {
+				cur.GhostSet = append(cur.GhostSet, ga)
+			} else {
+				cur.GhostInit = append(cur.GhostInit, ga)
+			}
 		case "ghostparam":
 			// ghostparam <name> <go type>: universally quantified logical parameter
 			if len(fields) < 3 {
@@ -885,7 +935,7 @@ func (cs *ContractSet) loadFile(path string) error {
 			lastClause.Src += " " + body
 		}
 		if kw != "assigns" {
-			if _, isKw := map[string]bool{"props": true, "requires": true, "ensures": true, "alloc_bound": true, "site": true, "loop": true, "inline": true, "pure": true, "trusted": true, "noverify": true, "may_panic": true, "callback": true, "ghostparam": true}[kw]; isKw {
+			if _, isKw := map[string]bool{"props": true, "requires": true, "ensures": true, "alloc_bound": true, "site": true, "loop": true, "inline": true, "pure": true, "trusted": true, "noverify": true, "may_panic": true, "callback": true, "ghostparam": true, "implements": true, "cbinv": true, "ghostset": true, "ghostinit": true}[kw]; isKw {
 				inAssigns = false
 			}
 		}
